@@ -59,6 +59,12 @@ var boundary = []bad{
 	{"cache.lock_shards", 0, "lock_shards=0", ref.MustNot},
 	{"cache.lock_shards", -1, "lock_shards=negative", ref.MustNot},
 	{"cache.lock_shards", 1, "lock_shards=1", ref.Must},
+	// a lock table of 2^40 or 2^62 entries cannot be allocated: the next start dies in make()
+	{"cache.lock_shards", 1 << 40, "lock_shards=2^40", ref.MustNot},
+	{"cache.lock_shards", 1 << 62, "lock_shards=2^62", ref.MustNot},
+	// main.go: "API cannot be disabled while dashboard is enabled" (panics at start); judged MustNot only while
+	// the running configuration has the dashboard enabled (see effectiveVerdict)
+	{"webserver.api_disabled", true, "api-disabled-alone", ref.MustNot},
 	{"cache.file.dir", "", "file.dir=empty", ref.MustNot},
 	{"cache.type", "disk", "type=unknown", ref.MustNot},
 	{"cache.type", "", "type=empty", ref.MustNot},
@@ -119,6 +125,28 @@ func drawUpd(t *rapid.T) Upd {
 		u.FaultAt = rapid.Int64Range(0, 1400).Draw(t, "fault_at")
 	}
 	return u
+}
+
+// effectiveVerdict adjusts the verdicts that depend on the running configuration: disabling the API is
+// unworkable exactly while the dashboard stays enabled.
+func effectiveVerdict(u Upd, running map[string]string) ref.Tri {
+	flat := map[string]any{}
+	addressed(normDoc(u.Doc), "", flat)
+	api, touchesAPI := flat["webserver.api_disabled"]
+	if !touchesAPI || api != true {
+		return u.Verdict
+	}
+	dash := running["webserver.dashboard_disabled"] == "true"
+	if d, ok := flat["webserver.dashboard_disabled"]; ok {
+		dash = d == true
+	}
+	if !dash {
+		return ref.MustNot
+	}
+	if strings.HasPrefix(u.Class, "api-disabled") {
+		return ref.Must
+	}
+	return u.Verdict
 }
 
 func addressed(doc map[string]any, prefix string, out map[string]any) {
@@ -190,6 +218,7 @@ var sub = ev.Register("config-updates",
 				return f
 			}
 			rejected := r.Err != ""
+			u.Verdict = effectiveVerdict(u, prev.Vector)
 			if rejected {
 				o.NonTrivial = true
 				if u.Verdict == ref.Must {
